@@ -154,11 +154,12 @@ Definition step (s : state) (o : op) : state * tag :=
           s_nn := s_nn s; c_rank := c_rank s; c_main := c_main s; c_so := c_so s; c_dist := None; c_area := None |}, tg [] [] [])
   | MOrder m => (fst (order_cells s m), tg [] [] [])
   | MDumpLoad =>
-      (* _dict evaluates nnodes; the loaded object carries idxs_ds, _seq, _pit, nnodes (and transform);
-         caching is on and the memo is empty *)
+      (* _dict evaluates nnodes; the loaded object carries idxs_ds, _seq, _pit, nnodes (and transform; a vector
+         object also the node areas it was built with); caching is on and the memo is otherwise empty *)
       let '(s1, _) := get_nn s in
       ({| raster := raster s1; cacheon := true; ver := ver s1; tver := tver s1; s_pit := s_pit s1; s_seq := s_seq s1;
-          s_nn := s_nn s1; c_rank := None; c_main := None; c_so := None; c_dist := None; c_area := None |}, tg [] [] [])
+          s_nn := s_nn s1; c_rank := None; c_main := None; c_so := None; c_dist := None;
+          c_area := if raster s1 then None else c_area s1 |}, tg [] [] [])
   end.
 
 Fixpoint run (s : state) (ops : list op) : list (state * tag) :=
